@@ -9,6 +9,7 @@ CONSTANTS
   Kinds = {"pa", "rd", "ra", "aw"}
   NatKinds = {"sd"}
   Prune = FALSE
+  Plan = "free"
 INVARIANTS TypeOK CoroMode RunToSuspension QueueFIFO ObservedOrder ResumeOncePerReadying NoReentrancy RoundRobin FullDrain AllDoneAtEnd
 PROPERTY FIFOStep
 CHECK_DEADLOCK FALSE
